@@ -558,3 +558,94 @@ def descr_get_owner(rep, rule, u):
                'the instance and owner arguments are only handed on after a test '
                'that establishes them non-NULL (%d uses)' % n if not probs else
                {'problems': sorted(set(probs))[:3]}, construct='owner-null')
+
+
+def hook_walk(rep, rule, u):
+    """walks over the module's adapter_hooks LIST from C: hooks are arbitrary
+    Python code and may change the list while the walk is running (the Python
+    reference iterates the live list).  The index must therefore be bounded by
+    the list's CURRENT size at every step, and the hook must be held
+    (Py_INCREF) across its own call."""
+    from ..cfront import calls as _calls_in, c_assigned
+    from ..cown import RUNS_PYTHON
+    from .cside import ccheck
+    GET = ('PyList_GET_ITEM', 'PyTuple_GET_ITEM', 'PyList_GetItem')
+    SIZE = ('PyList_GET_SIZE', 'PyList_Size', 'Py_SIZE', 'PyTuple_GET_SIZE')
+    n_sites = 0
+    for fname, f in sorted(u.funcs.items()):
+        g = ccfg(f)
+        lists = set()
+        for n in g.nodes:
+            if n.e is None:
+                continue
+            for x in n.e.walk():
+                if x.k == 'assign' and x.a[2] is not None and x.a[2].k == 'call' and \
+                        x.a[2].a[0] == '_get_adapter_hooks' and x.a[1].k == 'var':
+                    lists.add(x.a[1].a[0])
+                if x.k == 'decl' and x.a[2] is not None and x.a[2].k == 'call' and \
+                        x.a[2].a[0] == '_get_adapter_hooks':
+                    lists.add(x.a[0])
+        if not lists:
+            continue
+        probs = []
+        for n in g.nodes:
+            if n.e is None:
+                continue
+            for c in _calls_in(n.e):
+                if c.a[0] not in GET or not c.a[1] or c.a[1][0] is None or \
+                        c.a[1][0].k != 'var' or c.a[1][0].a[0] not in lists:
+                    continue
+                n_sites += 1
+                L = c.a[1][0].a[0]
+                idx = c.a[1][1]
+                ivars = {x.a[0] for x in idx.walk() if x.k == 'var'} if idx is not None else set()
+                # (1) some test bounds the index by a size read in the test itself
+                fresh = False
+                stale = []
+                for t in g.nodes:
+                    if t.kind != 'test' or t.e is None:
+                        continue
+                    tv = {x.a[0] for x in t.e.walk() if x.k == 'var'}
+                    if not (tv & ivars):
+                        continue
+                    sz = [cc for cc in _calls_in(t.e) if cc.a[0] in SIZE and cc.a[1]
+                          and cc.a[1][0] is not None and cc.a[1][0].k == 'var'
+                          and cc.a[1][0].a[0] == L]
+                    if sz:
+                        fresh = True
+                    else:
+                        stale.append(show(t.e)[:40])
+                if not fresh:
+                    probs.append('the index into `%s` is bounded by %s, a size read before '
+                                 'the hooks ran: a hook that shortens the list makes '
+                                 '%s read past its end' % (L, stale[:1] or 'nothing', c.a[0]))
+                # (2) the item is held across the callback
+                direct = [cc for cc in _calls_in(n.e) if cc.a[0] in RUNS_PYTHON and
+                          any(a is c or (a is not None and c in list(a.walk()))
+                              for a in cc.a[1])]
+                if direct:
+                    probs.append('the hook taken from `%s` is passed to %s as a borrowed '
+                                 'reference (the list may drop it while it runs)'
+                                 % (L, direct[0].a[0]))
+                else:
+                    held = [x.a[1].a[0] for x in n.e.walk() if x.k == 'assign'
+                            and x.a[2] is c and x.a[1].k == 'var'] + \
+                        ([n.e.a[0]] if n.e.k == 'decl' and n.e.a[2] is c else [])
+                    for h in held:
+                        inc = lambda m, h=h: any(
+                            cc.a[1] and cc.a[1][0] is not None and cc.a[1][0].k == 'var'
+                            and cc.a[1][0].a[0] == h
+                            for cc in node_calls(m, 'Py_INCREF') + node_calls(m, 'Py_XINCREF'))
+                        users = [m for m in g.nodes if m.e is not None and any(
+                            cc.a[0] in RUNS_PYTHON and any(
+                                a is not None and a.k == 'var' and a.a[0] == h
+                                for a in cc.a[1]) for cc in _calls_in(m.e))]
+                        for m in users:
+                            if not g.must_pass_after(n, inc, target=m):
+                                probs.append('the hook `%s` is called without holding a '
+                                             'reference to it' % h)
+        ccheck(rep, rule, fname, not probs,
+               'the walk over adapter_hooks re-reads the list size at every step and '
+               'holds each hook across its call' if not probs else
+               {'problems': sorted(set(probs))[:3]}, construct='hook-walk')
+    rep.require(n_sites >= 1, 'no indexed read of adapter_hooks found in the C code')
